@@ -12,6 +12,12 @@ NOT_APPLICABLE = {
     "C18": "both directions are text (Display printer, hand-written lexer/CST/AST over &str with Rc sharing); symbolic strings of useful length are out of reach; the numeric core (Scaled print/parse) is decided under C06 (DESIGN.md 7)",
     "C19": "file-system trait objects, PathBuf-keyed maps, whole-file line splitting and the VM main loop: a property over trees of files, not over a kernel (DESIGN.md 7)",
 }
+NOT_APPLICABLE.update({
+    "C03": "the lexer works on &str with chars()/slicing; symbolic source bytes send CBMC into UTF-8 decoding and string searching over symbolic boundaries (the same shape did not finish for hyphenate::load_patterns in 25 min and for VM construction in 25 min, DESIGN.md 2.4); the MIR engine does not model strings. Not decided.",
+    "C05": "lig/kern compilation and execution are HashMap/BTreeMap/String based (tfm::ligkern::{compiler,mod}); no bounded integer kernel could be separated and the containers are beyond the CBMC bounds measured here (DESIGN.md 2.4). Not attempted further in the time available.",
+    "C12": "post_line_break and the text preprocessor build and split nested Vec<Horizontal> lists (with Rc and String payloads); the structurally similar dvi::Values (nested heap vectors) ran CBMC out of memory on 3 symbolic operations (DESIGN.md 2.4), and the functions are private (would need an in-crate mount). Not decided.",
+    "C13": "measured: a Kani harness over Hyphenator::load_patterns + insert_exception + calculate_indices (one 5-byte pattern with symbolic digits, word 'ab') did not leave symbolic execution in 25 min (str::split_whitespace over symbolic bytes), and a variant with constant pattern text and only the word case / exception symbolic did not finish in 15 min; the hook was reverted. Not decided.",
+})
 PENDING_REASON = "no check registered yet in this revision of /verif (build in progress; see DESIGN.md 9 build order)"
 ALL = [f"C{i:02d}" for i in range(1, 21)]
 
